@@ -7,6 +7,7 @@ import GeoVerif.Driver.Survey
 import GeoVerif.Driver.Codec
 import GeoVerif.Driver.Ws
 import GeoVerif.Driver.Life
+import GeoVerif.Driver.Pair
 open Lean GeoVerif.Driver
 
 structure DSt where
@@ -28,6 +29,7 @@ def stepLine (st : DSt) (line : String) : DSt × String :=
     | "survey" => (st, (SurveyD.handle j).compress)
     | "codec" => (st, (CodecD.handle j).compress)
     | "ws" => let (s, o) := WsD.handle st.ws j; ({ st with ws := s }, o.compress)
+    | "pair" => (st, (PairD.handle j).compress)
     | "life" => let (s, o) := LifeD.handle st.life j; ({ st with life := s }, o.compress)
     | _ => (st, "\"bad-model\"")
 
